@@ -8,6 +8,7 @@
 import CB.Props.C10
 import CB.Lemmas.GenBitsSafeGcd
 import CB.Lemmas.GenSafeGcdJump
+import CB.Lemmas.GenSafeGcdLimbs
 namespace CB.P10G
 open CB CB.SafeGcd
 
@@ -110,6 +111,208 @@ theorem safegcd_words_are_translated_source :
 /-- non-vacuity: the translated source on f = 7, g = 12, δ = 1 (the example of T10.4), and `iterations(256, 256)` -/
 example : (Gen.SafeGcd.jump [7#64] [12#64] 1#64).2.1.1.toInt * 7 + (Gen.SafeGcd.jump [7#64] [12#64] 1#64).2.1.2.toInt * 12
       = 2 ^ 62 * 1 ∧ (Gen.SafeGcd.iterations 256#32 256#32).toNat = 741 := by
+  decide +kernel
+
+/-! ## T10.G (limbs) — the SOURCE of `impl UnsatInt<LIMBS>` and of `fg`, `de`
+
+`Gen.SafeGcdLimbs.UnsatInt.{add, mul, neg, shr, eq, is_negative, lowest, select}` and `Gen.SafeGcdLimbs.{fg, de}` are the
+Lean translations of what src/modular/safegcd.rs says NOW (CB/Gen/SafeGcdLimbs.lean): an `UnsatInt<LIMBS>` is the list of
+its 62-bit words (`List (BitVec 64)`, `LIMBS` an explicit argument), each `while i < LIMBS` loop a fuel-recursive
+`*_loop1`, `u64` / `i64` / `u128` arithmetic the wrapping `BitVec` operations.  `nats` reads the words as the model's
+`Nat`s, `WFw` is the model's representation invariant (`WF62`: every word `< 2^62`), `uvalN` / `uval` the unsigned /
+two's-complement value of a word list, `Q = 2^62`. -/
+
+open CB.GenChains (nats) in
+open CB.GenSafeGcdLimbs (WFw) in
+/-- `UnsatInt::add` of the source is the model's `uadd` for every limb count, and adds the values modulo `2^(62·LIMBS)` -/
+theorem src_unsat_add_exact (a b : List (BitVec 64)) (h : a.length = b.length) (wa : WFw a) (wb : WFw b) :
+    nats (Gen.SafeGcdLimbs.UnsatInt.add a.length a b) = uadd (nats a) (nats b) ∧
+    (Gen.SafeGcdLimbs.UnsatInt.add a.length a b).length = a.length ∧
+    WFw (Gen.SafeGcdLimbs.UnsatInt.add a.length a b) ∧
+    uvalN (nats (Gen.SafeGcdLimbs.UnsatInt.add a.length a b)) = (uvalN (nats a) + uvalN (nats b)) % Q ^ a.length := by
+  obtain ⟨e, w, l⟩ := GenSafeGcdLimbs.add_ok a b h wa wb
+  refine ⟨e, l, w, ?_⟩
+  rw [e, (uadd_spec (nats a) (nats b) (by simp [nats, h])).2.2]
+  simp [nats]
+
+open CB.GenChains (nats) in
+open CB.GenSafeGcdLimbs (WFw) in
+/-- `UnsatInt::mul(i64)` of the source is the model's `umul` for every limb count and every multiplier except `i64::MIN`
+    (where the source's `-other` overflows), and multiplies the value modulo `2^(62·LIMBS)` -/
+theorem src_unsat_mul_exact (a : List (BitVec 64)) (o : BitVec 64) (wa : WFw a) (ho : -(2 ^ 63) < o.toInt) :
+    nats (Gen.SafeGcdLimbs.UnsatInt.mul a.length a o) = umul (nats a) o.toInt ∧
+    (Gen.SafeGcdLimbs.UnsatInt.mul a.length a o).length = a.length ∧
+    WFw (Gen.SafeGcdLimbs.UnsatInt.mul a.length a o) ∧
+    ((uvalN (nats (Gen.SafeGcdLimbs.UnsatInt.mul a.length a o)) : Nat) : Int) ≡
+      (uvalN (nats a) : Nat) * o.toInt [ZMOD ((Q ^ a.length : Nat) : Int)] := by
+  obtain ⟨e, w, l⟩ := GenSafeGcdLimbs.mul_ok a o wa ho
+  refine ⟨e, l, w, ?_⟩
+  have := (umul_spec (nats a) o.toInt ((GenSafeGcdLimbs.WFw_iff a).mp wa) (GenSafeGcdLimbs.toInt_bounds o).1
+    (GenSafeGcdLimbs.toInt_bounds o).2).2.2
+  rw [e]
+  simpa [nats] using this
+
+open CB.GenChains (nats) in
+open CB.GenSafeGcdLimbs (WFw) in
+/-- `UnsatInt::neg` of the source is the model's `uneg` for every limb count, and negates the value modulo `2^(62·LIMBS)` -/
+theorem src_unsat_neg_exact (a : List (BitVec 64)) (wa : WFw a) :
+    nats (Gen.SafeGcdLimbs.UnsatInt.neg a.length a) = uneg (nats a) ∧
+    uvalN (nats (Gen.SafeGcdLimbs.UnsatInt.neg a.length a)) = (Q ^ a.length - uvalN (nats a)) % Q ^ a.length := by
+  have e := (GenSafeGcdLimbs.uneg_bridge a wa).symm
+  refine ⟨e, ?_⟩
+  rw [e, (uneg_spec (nats a) ((GenSafeGcdLimbs.WFw_iff a).mp wa)).2.2]
+  simp [nats]
+
+open CB.GenChains (nats) in
+open CB.GenSafeGcdLimbs (WFw) in
+/-- `UnsatInt::shr` of the source is the model's `ushr` for every limb count `≥ 1`; for `≥ 2` limbs it is the exact
+    arithmetic shift of the two's-complement value by 62 bits.  `is_negative` is the mask of the sign of that value,
+    `lowest` the lowest word. -/
+theorem src_unsat_shr_exact (a : List (BitVec 64)) (hne : a ≠ []) (wa : WFw a) :
+    nats (Gen.SafeGcdLimbs.UnsatInt.shr a.length a) = ushr (nats a) ∧
+    (2 ≤ a.length → uval (nats (Gen.SafeGcdLimbs.UnsatInt.shr a.length a)) = uval (nats a) / (Q : Int)) ∧
+    Gen.SafeGcdLimbs.UnsatInt.is_negative a.length a = GenBits.ofBool (decide (uval (nats a) < 0)) ∧
+    (Gen.SafeGcdLimbs.UnsatInt.lowest a.length a).toNat = ulowest (nats a) := by
+  have e := (GenSafeGcdLimbs.ushr_bridge a hne).symm
+  have wa' := (GenSafeGcdLimbs.WFw_iff a).mp wa
+  have hne' : nats a ≠ [] := by simpa [nats] using hne
+  refine ⟨e, fun h2 => ?_, ?_, (GenSafeGcdLimbs.ulowest_bridge a).symm⟩
+  · rw [e]; exact (ushr_spec (nats a) wa' (by simpa [nats] using h2)).2.2
+  · rw [GenSafeGcdLimbs.uisNeg_bridge]
+    congr 1
+    have := (P10.unsat_eq_is_negative (nats a) (nats a) wa' wa' rfl hne').2
+    rw [Bool.eq_iff_iff, this]; simp
+
+open CB.GenChains (nats) in
+open CB.GenSafeGcdLimbs (WFw) in
+/-- `UnsatInt::eq` / `UnsatInt::select` of the source are the model's `ueq` / `uselect`; `eq` is the mask of equality of the
+    two's-complement values -/
+theorem src_unsat_eq_select_exact (a b : List (BitVec 64)) (h : a.length = b.length) (hne : a ≠ []) (wa : WFw a) (wb : WFw b)
+    (p : Bool) :
+    Gen.SafeGcdLimbs.UnsatInt.eq a.length a b = GenBits.ofBool (decide (uval (nats a) = uval (nats b))) ∧
+    nats (Gen.SafeGcdLimbs.UnsatInt.select a.length a b (GenBits.ofBool p)) = (if p then nats b else nats a) := by
+  have hne' : nats a ≠ [] := by simpa [nats] using hne
+  refine ⟨?_, ?_⟩
+  · rw [GenSafeGcdLimbs.ueq_bridge a b h]
+    congr 1
+    have := (P10.unsat_eq_is_negative (nats a) (nats b) ((GenSafeGcdLimbs.WFw_iff a).mp wa)
+      ((GenSafeGcdLimbs.WFw_iff b).mp wb) (by simp [nats, h]) hne').1
+    rw [Bool.eq_iff_iff, this]; simp
+  · rw [← GenSafeGcdLimbs.uselect_bridge a b p h]; rfl
+
+open CB.GenChains (nats) in
+open CB.GenSafeGcdLimbs (WFw matOf) in
+/-- `fg` of the source: T10.4(d) `fg_exact` restated for the translated function — for well-formed `n ≥ 2`-limb operands, a
+    matrix whose rows have absolute sum `≤ 2^62` and `T·(F, G)` within the signed range of the limbs, the words the SOURCE
+    returns are well formed and represent exactly `⌊(t00·F + t01·G)/2^62⌋`, `⌊(t10·F + t11·G)/2^62⌋` -/
+theorem src_fg_exact (f g : List (BitVec 64)) (t : (BitVec 64 × BitVec 64) × (BitVec 64 × BitVec 64))
+    (wf : WFw f) (wg : WFw g) (hl : f.length = g.length) (hlen : 2 ≤ f.length)
+    (hb0 : |t.1.1.toInt| + |t.1.2.toInt| ≤ 2 ^ 62) (hb1 : |t.2.1.toInt| + |t.2.2.toInt| ≤ 2 ^ 62)
+    (hr0a : -((Q ^ f.length : Nat) : Int) ≤ 2 * (t.1.1.toInt * uval (nats f) + t.1.2.toInt * uval (nats g)))
+    (hr0b : 2 * (t.1.1.toInt * uval (nats f) + t.1.2.toInt * uval (nats g)) < ((Q ^ f.length : Nat) : Int))
+    (hr1a : -((Q ^ f.length : Nat) : Int) ≤ 2 * (t.2.1.toInt * uval (nats f) + t.2.2.toInt * uval (nats g)))
+    (hr1b : 2 * (t.2.1.toInt * uval (nats f) + t.2.2.toInt * uval (nats g)) < ((Q ^ f.length : Nat) : Int)) :
+    (nats (Gen.SafeGcdLimbs.fg f.length f g t).1, nats (Gen.SafeGcdLimbs.fg f.length f g t).2) =
+      fg (nats f) (nats g) (matOf t) ∧
+    (Gen.SafeGcdLimbs.fg f.length f g t).1.length = f.length ∧ WFw (Gen.SafeGcdLimbs.fg f.length f g t).1 ∧
+    uval (nats (Gen.SafeGcdLimbs.fg f.length f g t).1) =
+      (t.1.1.toInt * uval (nats f) + t.1.2.toInt * uval (nats g)) / (Q : Int) ∧
+    (Gen.SafeGcdLimbs.fg f.length f g t).2.length = f.length ∧ WFw (Gen.SafeGcdLimbs.fg f.length f g t).2 ∧
+    uval (nats (Gen.SafeGcdLimbs.fg f.length f g t).2) =
+      (t.2.1.toInt * uval (nats f) + t.2.2.toInt * uval (nats g)) / (Q : Int) := by
+  have hne : f ≠ [] := by intro h0; rw [h0] at hlen; simp at hlen
+  have e00 := abs_le.mp (le_trans (le_add_of_nonneg_right (abs_nonneg t.1.2.toInt)) hb0)
+  have e01 := abs_le.mp (le_trans (le_add_of_nonneg_left (abs_nonneg t.1.1.toInt)) hb0)
+  have e10 := abs_le.mp (le_trans (le_add_of_nonneg_right (abs_nonneg t.2.2.toInt)) hb1)
+  have e11 := abs_le.mp (le_trans (le_add_of_nonneg_left (abs_nonneg t.2.1.toInt)) hb1)
+  have hbr := GenSafeGcdLimbs.fg_bridge f g t hl hne wf wg (by omega) (by omega) (by omega) (by omega)
+  have hnl : (nats f).length = f.length := by simp [nats]
+  obtain ⟨p1, p2, p3, p4, p5, p6⟩ := P10.fg_exact (nats f) (nats g) (matOf t) ((GenSafeGcdLimbs.WFw_iff f).mp wf)
+    ((GenSafeGcdLimbs.WFw_iff g).mp wg) (by simp [nats, hl]) (by rw [hnl]; exact hlen) hb0 hb1
+    (by rw [hnl]; exact hr0a) (by rw [hnl]; exact hr0b) (by rw [hnl]; exact hr1a) (by rw [hnl]; exact hr1b)
+  rw [hbr] at p1 p2 p3 p4 p5 p6
+  simp only [hnl] at p1 p4
+  refine ⟨hbr.symm, ?_, (GenSafeGcdLimbs.WFw_iff _).mpr p2, p3, ?_, (GenSafeGcdLimbs.WFw_iff _).mpr p5, p6⟩
+  · simpa [nats] using p1
+  · simpa [nats] using p4
+
+open CB.GenChains (nats) in
+open CB.GenSafeGcdLimbs (WFw matOf) in
+/-- `de` of the source: T10.4(d) `de_exact` restated for the translated function — with `d, e ∈ (-2M, M)`,
+    `inverse·M ≡ 1 (mod 2^62)` and `2^64·M ≤ 2^(62n)`, the words the SOURCE returns satisfy
+    `2^62·d' = t00·d + t01·e + md·M`, `2^62·e' = t10·d + t11·e + me·M` exactly for some integers `md`, `me`, and
+    `d', e' ∈ (-2M, M)` again -/
+theorem src_de_exact (m d e : List (BitVec 64)) (inv : BitVec 64) (t : (BitVec 64 × BitVec 64) × (BitVec 64 × BitVec 64))
+    (wd : WFw d) (we : WFw e) (wm : WFw m) (hle : e.length = d.length) (hlm : m.length = d.length) (hlen : 2 ≤ d.length)
+    (hb0 : |t.1.1.toInt| + |t.1.2.toInt| ≤ 2 ^ 62) (hb1 : |t.2.1.toInt| + |t.2.2.toInt| ≤ 2 ^ 62)
+    (hM : 0 < uval (nats m)) (hD1 : -(2 * uval (nats m)) < uval (nats d)) (hD2 : uval (nats d) < uval (nats m))
+    (hE1 : -(2 * uval (nats m)) < uval (nats e)) (hE2 : uval (nats e) < uval (nats m))
+    (hcap : 2 ^ 64 * uval (nats m) ≤ ((Q ^ d.length : Nat) : Int))
+    (hinv : inv.toInt * uval (nats m) ≡ 1 [ZMOD 2 ^ 62]) :
+    (nats (Gen.SafeGcdLimbs.de d.length m inv t d e).1, nats (Gen.SafeGcdLimbs.de d.length m inv t d e).2) =
+      de (nats m) inv.toInt (matOf t) (nats d) (nats e) ∧
+    ∃ md me : Int,
+      WFw (Gen.SafeGcdLimbs.de d.length m inv t d e).1 ∧ WFw (Gen.SafeGcdLimbs.de d.length m inv t d e).2 ∧
+      2 ^ 62 * uval (nats (Gen.SafeGcdLimbs.de d.length m inv t d e).1) =
+        t.1.1.toInt * uval (nats d) + t.1.2.toInt * uval (nats e) + md * uval (nats m) ∧
+      2 ^ 62 * uval (nats (Gen.SafeGcdLimbs.de d.length m inv t d e).2) =
+        t.2.1.toInt * uval (nats d) + t.2.2.toInt * uval (nats e) + me * uval (nats m) ∧
+      -(2 * uval (nats m)) < uval (nats (Gen.SafeGcdLimbs.de d.length m inv t d e).1) ∧
+      uval (nats (Gen.SafeGcdLimbs.de d.length m inv t d e).1) < uval (nats m) ∧
+      -(2 * uval (nats m)) < uval (nats (Gen.SafeGcdLimbs.de d.length m inv t d e).2) ∧
+      uval (nats (Gen.SafeGcdLimbs.de d.length m inv t d e).2) < uval (nats m) := by
+  have hne : d ≠ [] := by intro h0; rw [h0] at hlen; simp at hlen
+  have hbr := GenSafeGcdLimbs.de_bridge m d e inv t hle hlm hne wm wd we hb0 hb1
+  have hnl : (nats d).length = d.length := by simp [nats]
+  obtain ⟨md, me, p1, p2, p3, p4, p5, p6, p7, p8, p9, p10⟩ :=
+    P10.de_exact (nats m) (nats d) (nats e) inv.toInt (matOf t) ((GenSafeGcdLimbs.WFw_iff d).mp wd)
+      ((GenSafeGcdLimbs.WFw_iff e).mp we) ((GenSafeGcdLimbs.WFw_iff m).mp wm) (by simp [nats, hle]) (by simp [nats, hlm])
+      (by rw [hnl]; exact hlen) hb0 hb1 hM hD1 hD2 hE1 hE2 (by rw [hnl]; exact hcap) hinv
+  rw [hbr] at p2 p4 p5 p6 p7 p8 p9 p10
+  exact ⟨hbr.symm, md, me, (GenSafeGcdLimbs.WFw_iff _).mpr p2, (GenSafeGcdLimbs.WFw_iff _).mpr p4, p5, p6, p7, p8, p9, p10⟩
+
+open CB.GenChains (nats) in
+open CB.GenSafeGcdLimbs (WFw matOf) in
+/-- the hand-written models of the LIMB arithmetic of safegcd (what T10.4(d) and the loop theorems are proved about) ARE
+    the translated source, for every limb count: `add`, `neg`, `mul` (multiplier `≠ i64::MIN`), `shr` (`LIMBS ≥ 1`),
+    `is_negative`, `lowest`, `eq`, `select` of `UnsatInt`, and `fg`, `de` (rows of the matrix of absolute sum `≤ 2^62`) -/
+theorem safegcd_limbs_are_translated_source :
+    (∀ a b : List (BitVec 64), a.length = b.length → WFw a → WFw b →
+      uadd (nats a) (nats b) = nats (Gen.SafeGcdLimbs.UnsatInt.add a.length a b)) ∧
+    (∀ a : List (BitVec 64), WFw a → uneg (nats a) = nats (Gen.SafeGcdLimbs.UnsatInt.neg a.length a)) ∧
+    (∀ (a : List (BitVec 64)) (o : BitVec 64), -(2 ^ 63) < o.toInt →
+      umul (nats a) o.toInt = nats (Gen.SafeGcdLimbs.UnsatInt.mul a.length a o)) ∧
+    (∀ a : List (BitVec 64), a ≠ [] → ushr (nats a) = nats (Gen.SafeGcdLimbs.UnsatInt.shr a.length a)) ∧
+    (∀ a : List (BitVec 64), Gen.SafeGcdLimbs.UnsatInt.is_negative a.length a = GenBits.ofBool (uisNeg (nats a))) ∧
+    (∀ a : List (BitVec 64), ulowest (nats a) = (Gen.SafeGcdLimbs.UnsatInt.lowest a.length a).toNat) ∧
+    (∀ a b : List (BitVec 64), a.length = b.length →
+      Gen.SafeGcdLimbs.UnsatInt.eq a.length a b = GenBits.ofBool (SafeGcd.ueq (nats a) (nats b))) ∧
+    (∀ (a b : List (BitVec 64)) (p : Bool), a.length = b.length →
+      SafeGcd.uselect (nats a) (nats b) p = nats (Gen.SafeGcdLimbs.UnsatInt.select a.length a b (GenBits.ofBool p))) ∧
+    (∀ (f g : List (BitVec 64)) (t : (BitVec 64 × BitVec 64) × (BitVec 64 × BitVec 64)), f.length = g.length → f ≠ [] →
+      WFw f → WFw g → -(2 ^ 63) < t.1.1.toInt → -(2 ^ 63) < t.1.2.toInt → -(2 ^ 63) < t.2.1.toInt → -(2 ^ 63) < t.2.2.toInt →
+      fg (nats f) (nats g) (matOf t) =
+        (nats (Gen.SafeGcdLimbs.fg f.length f g t).1, nats (Gen.SafeGcdLimbs.fg f.length f g t).2)) ∧
+    (∀ (m d e : List (BitVec 64)) (inv : BitVec 64) (t : (BitVec 64 × BitVec 64) × (BitVec 64 × BitVec 64)),
+      e.length = d.length → m.length = d.length → d ≠ [] → WFw m → WFw d → WFw e →
+      |t.1.1.toInt| + |t.1.2.toInt| ≤ 2 ^ 62 → |t.2.1.toInt| + |t.2.2.toInt| ≤ 2 ^ 62 →
+      de (nats m) inv.toInt (matOf t) (nats d) (nats e) =
+        (nats (Gen.SafeGcdLimbs.de d.length m inv t d e).1, nats (Gen.SafeGcdLimbs.de d.length m inv t d e).2)) :=
+  ⟨GenSafeGcdLimbs.uadd_bridge, GenSafeGcdLimbs.uneg_bridge, GenSafeGcdLimbs.umul_bridge, GenSafeGcdLimbs.ushr_bridge,
+    GenSafeGcdLimbs.uisNeg_bridge, GenSafeGcdLimbs.ulowest_bridge, GenSafeGcdLimbs.ueq_bridge, GenSafeGcdLimbs.uselect_bridge,
+    GenSafeGcdLimbs.fg_bridge, GenSafeGcdLimbs.de_bridge⟩
+
+/-- non-vacuity: the translated source on three 62-bit limbs — `7 + (−9) = −2`, `(−9)·(−3) = 27`, `−(−9) = 9`,
+    `(−9·2^62) >> 62 = −9`, and one `fg` step with the matrix `[[1, 0], [−1, 1]]` on `f = 7·2^62`, `g = 12·2^62`: `(7, 5)` -/
+example :
+    Gen.SafeGcdLimbs.UnsatInt.add 3 [7#64, 0#64, 0#64] (Gen.SafeGcdLimbs.UnsatInt.neg 3 [9#64, 0#64, 0#64]) =
+      Gen.SafeGcdLimbs.UnsatInt.neg 3 [2#64, 0#64, 0#64] ∧
+    Gen.SafeGcdLimbs.UnsatInt.mul 3 (Gen.SafeGcdLimbs.UnsatInt.neg 3 [9#64, 0#64, 0#64]) (-3#64) = [27#64, 0#64, 0#64] ∧
+    Gen.SafeGcdLimbs.UnsatInt.neg 3 (Gen.SafeGcdLimbs.UnsatInt.neg 3 [9#64, 0#64, 0#64]) = [9#64, 0#64, 0#64] ∧
+    Gen.SafeGcdLimbs.UnsatInt.shr 3 (Gen.SafeGcdLimbs.UnsatInt.neg 3 [0#64, 9#64, 0#64]) =
+      Gen.SafeGcdLimbs.UnsatInt.neg 3 [9#64, 0#64, 0#64] ∧
+    Gen.SafeGcdLimbs.fg 3 [0#64, 7#64, 0#64] [0#64, 12#64, 0#64] ((1#64, 0#64), (-1#64, 1#64)) =
+      ([7#64, 0#64, 0#64], [5#64, 0#64, 0#64]) := by
   decide +kernel
 
 end CB.P10G
